@@ -1,6 +1,8 @@
 CONSTANTS
+  Sites <- SiteTable
   BITS = 5
 SPECIFICATION GenSpec
 INVARIANT EmitCmp
 INVARIANT EmitAdd
+INVARIANT EmitSites
 CHECK_DEADLOCK FALSE
